@@ -42,6 +42,10 @@
 (*   Len           = rcv - rd                                              *)
 (*   Malloc(n) / WriteBinary(b) / Flush / Write(b)                         *)
 (*                                                                         *)
+(* Used by: ByteQueue_mc*.cfg (exhaustive, quantified results),            *)
+(* ByteQueueTrace (logged results of the real connection), LinkBuffer      *)
+(* (stage 2: results computed from the node geometry; refinement).         *)
+(*                                                                         *)
 (* Deliberately unconstrained                                              *)
 (*   - how much the connection reads ahead and when (rcv only has to cover *)
 (*     what was returned); allocation strategy, node geometry (stage 2)    *)
